@@ -125,21 +125,24 @@ open Qryn.ReadSide.Census in
 theorem producers_rely_on_drain :
     ∀ g ∈ ReadGoroutines.goroutines, (sendProfile g).2.2 = 0 := by decide +kernel
 
-/-- handler loops that can be left before the channel is closed without leaving a drain behind; each with the reason
-    why the exit is not taken -/
-def unreachableHandlerExits : List (String × String) :=
-  [("TempoController.Trace", "#2 range res")]
-  -- `json.Marshal(SpanToJSONSpan(span))`: a JSONSpan holds strings, uint64s and a *v1.Status only — Marshal cannot fail
+/-- what the body of a handler's receive loop may call without the handler leaving a drain behind: the response
+    writer, the JSON encoder on strings / flat structs, `append`, `make`, printing — nothing that walks stored data -/
+def harmlessLoopCalls : List String :=
+  ["w.Write", "json.Marshal", "append", "make", "fmt.Println"]
 
 /-- **handler_loops_read_to_close.** The consumer side of `no_blocked_sender` in the source: every loop of
-    reader/controller that receives from a service channel either has no `return` / `break` / `goto` / `panic` in its
-    body — it reads until the producer closes — or the handler leaves a drainer behind AND cancels (the websocket
-    tail); the one exception is listed with the reason. The seeded change C12-1 (a `return` on a write error or a
-    cancelled request context inside `for str := range ch`) turns `(…, false, false, false)` into
-    `(…, true, false, false)` and breaks this theorem. -/
+    reader/controller that receives from a service channel either
+    * leaves a drainer behind when the handler returns (`defer func(){ for range ch {} }()`: the Tempo trace
+      handler, whose loop body renders stored spans, and the websocket tail, which also cancels), or
+    * has no `return` / `break` / `goto` / `panic` in its body AND calls nothing but the response writer, the JSON
+      encoder, `append`, `make` and `fmt.Println` there — so neither a statement nor a recovered panic of a callee
+      takes the handler out of the loop before the producer has closed the channel.
+    The seeded change C12-1 (a `return` on a write error or a cancelled request context inside `for str := range ch`)
+    and the defect fixed in this round (the trace handler's loop calls `SpanToJSONSpan`, which dereferences a stored
+    attribute value; the recovered panic left the span sender blocked for ever) both fail this condition. -/
 theorem handler_loops_read_to_close :
     ∀ l ∈ ReadGoroutines.handlerLoops,
-      l.2.2.1 = false ∨ (l.2.2.2.1 = true ∧ l.2.2.2.2 = true) ∨ (l.1, l.2.1) ∈ unreachableHandlerExits := by decide
+      l.2.2.2.1 = true ∨ (l.2.2.1 = false ∧ ∀ c ∈ l.2.2.2.2.2, c ∈ harmlessLoopCalls) := by decide
 
 /-- handlers that answer without touching the database or speak another protocol (websocket tail) -/
 def staticHandlers : List String :=
@@ -361,7 +364,7 @@ theorem pipeline_without_drain_deadlocks :
     at ANY point (`stop`: client gone, write error, limit reached), the request context may be cancelled at any point
     (`envCancel`). For every pipeline length, every result set (batches with arbitrary futures), every closing output
     and every interleaving: under the code's convention — the handler's code keeps the channel drained
-    (`onStop = drain`: qryn, by `handler_loops_read_to_close`), OR it cancels a context on which every producer's send
+    (`onStop = drain`: qryn, by `handler_loops_read_to_close` — a loop that is never left early, or a deferred drainer), OR it cancels a context on which every producer's send
     selects (`onStop = cancel ∧ sel`) — and with every stage keeping its input consumed (`consumers_drain`),
     (a) every move strictly decreases `measure`: every schedule is finite;
     (b) a state that is not final has a move: no send blocks for ever, wherever the handler stopped;
